@@ -180,8 +180,12 @@ def _spellings(ctx, res, d):
     _write(p2, ftcases)
     mo = C.run_model(ctx.model["C04R"], p2)
     io = C.run_impl(ctx.bins["c04r"], p2, len(specs), shards=1)
+    # the model of the code with the PROPOSED notes/C04-fix-5.patch (attached `<file`)
+    p3 = os.path.join(d, "lines_fta.cases")
+    _write(p3, ["fta" + c[2:] for c in ftcases])
+    mo_att = C.run_model(ctx.model["C04R"], p3)
     nviol = 0
-    for (line, tris, fr, known), t, m, i in zip(specs, tk, mo, io):
+    for (line, tris, fr, known), t, m, i, m_att in zip(specs, tk, mo, io, mo_att):
         if _interesting(m):
             res.nontrivial("redir:" + m)
         want = (_expected_args(line), tris, fr)
@@ -189,7 +193,9 @@ def _spellings(ctx, res, d):
         ok = got == want
         if ok:
             # (inside a known class: the implementation now meets the property - accepted)
-            if m != i:
+            if m != i and m_att == i:
+                res.extra.setdefault("accepted", []).append("attached input redirection is recognised (proposed C04-fix-5 behaviour): " + line)
+            elif m != i:
                 nviol += 1
                 if nviol <= 3:
                     res.violate(kind="correspondence", layer="L1", function="Command::from_tokens",
